@@ -66,6 +66,16 @@ theorem readU64s_flatMap (ids rest : List Nat) (h : ∀ i ∈ ids, i < 184467440
     simp only [List.flatMap_cons, List.length_cons, List.append_assoc, readU64s, readN_toLE]
     rw [ih (fun i hi => h i (List.mem_cons_of_mem _ hi)), fromLE_toLE8 a (h a (List.mem_cons_self))]
 
+theorem readU64s_short (n : Nat) (b : List Nat) (h : b.length < 8 * n) :
+    readU64s n b = .error .eof := by
+  induction n generalizing b with
+  | zero => omega
+  | succ n ih =>
+    by_cases h8 : 8 ≤ b.length
+    · simp only [readU64s, readN, if_pos h8]
+      rw [ih (b.drop 8) (by rw [List.length_drop]; omega)]
+    · simp only [readU64s, readN, if_neg h8]
+
 /-! ### weights -/
 
 theorem flatMap_toLE8_length (r : List Nat) : (r.flatMap (toLE 8)).length = r.length * 8 := by
@@ -103,11 +113,8 @@ theorem decode_encodeRows (flag : Nat) (rows : List (List Nat)) (c : Nat)
     (hlen : rows.length < 384307168202282325)
     (h : ∀ r ∈ rows, r.length = c ∧ ∀ x ∈ r, x < 18446744073709551616) :
     ∃ b, encodeRows flag rows = .ok b ∧
-      decodeWeights b = (match readRows c rows.length
-          (rows.flatMap (fun r => r.flatMap (toLE 8))) with
-        | .error e => .error e
-        | .ok rows' =>
-          if flag % 2 = 1 then .ok (.ints (rows'.map (·.map toI64))) else .ok (.floats rows')) := by
+      decodeWeights b =
+        if flag % 2 = 1 then .ok (.ints (rows.map (·.map toI64))) else .ok (.floats rows) := by
   cases rows with
   | nil => exact absurd rfl hne
   | cons first rs =>
@@ -118,12 +125,16 @@ theorem decode_encodeRows (flag : Nat) (rows : List (List Nat)) (c : Nat)
     have hn : fromLE (toLE 8 (rs.length + 1)) = rs.length + 1 :=
       fromLE_toLE8 _ (by simp only [List.length_cons] at hlen; omega)
     have hcc : c % 256 + 256 * (c / 256 % 256) = c := by omega
-    simp only [decodeWeights, magicMeWe, toLE, List.cons_append, List.nil_append, readN_cons4,
-      ne_eq, not_true_eq_false, if_false, hf, hcc, List.length_cons]
-    rw [if_neg (by omega)]
-    have := readN_toLE 8 (rs.length + 1) ((first :: rs).flatMap (fun r => r.flatMap (toLE 8)))
-    simp only [toLE] at this hn
-    simp only [this, hn, hcap, not_true_eq_false, if_false]
-    rfl
+    have hrows := readRows_flatMap c (first :: rs) [] h
+    rw [List.append_nil] at hrows
+    simp only [decodeWeights, magicMeWe, List.cons_append, List.nil_append, readN_cons4,
+      ne_eq, not_true_eq_false, if_false, List.length_cons]
+    have h2 : toLE 2 c = [c % 256, c / 256 % 256] := rfl
+    rw [h2]
+    simp only [List.cons_append, List.nil_append, readN_cons4, not_true_eq_false, if_false, hcc]
+    rw [if_neg (by omega), readN_toLE]
+    simp only [hn, hcap, not_true_eq_false, if_false]
+    simp only [List.length_cons] at hrows
+    rw [hrows]
 
 end Coupe.Codec
